@@ -516,6 +516,11 @@ Definition bool_value (data : list Z) : sres (A := bool) :=
   else if list_eqb data str_off || list_eqb data str_no || list_eqb data str_false then SAccept false
   else SReject.
 
+(* a WEAKER rule, for contrast (not used by the model of the parser): only the first white-space delimited word of the
+   value text is compared with the six spellings, and the rest of the text is never looked at *)
+Definition bool_value_first_word (data : list Z) : sres (A := bool) :=
+  match extract_word (skip_space data) with ExtOk w _ => bool_value w | ExtFail => SReject end.
+
 (* ---------------------------------------------------------------- strip_values / check_keywords *)
 
 (* position i of conf belongs to a registered value *)
